@@ -31,6 +31,7 @@ from fedjax.core.typing import PyTree
 
 import jax
 import jax.numpy as jnp
+import numpy as np
 
 # Shared input that is passed to the client init that is shared across all
 # clients. For example, this could be the shared global model parameters that
@@ -263,19 +264,32 @@ def _blockify(clients: Iterable[Tuple[ClientId, Iterable[BatchExample],
         client_input=[client_input for _, _, client_input in block])
 
 
+def _shard_leading_axis(x, devices: Sequence[Any]):
+  """Places x[i] on devices[i], like the removed jax.device_put_sharded did.
+
+  The stacked array must be placed explicitly: inputs derived from an earlier
+  round's outputs are committed to one device, and jax.pmap rejects committed
+  arguments whose placement differs from the one it expects.
+  """
+  mesh = jax.sharding.Mesh(np.array(list(devices)), ('clients',))
+  return jax.device_put(
+      x, jax.sharding.NamedSharding(mesh, jax.sharding.PartitionSpec('clients')))
+
+
 def _device_put_sharded(shards: Sequence[PyTree], devices: Sequence[Any]):
   """jax.device_put_sharded, or its stacked equivalent where jax removed it."""
   if hasattr(jax, 'device_put_sharded'):
     return jax.device_put_sharded(shards, devices)
-  # jax.pmap splits the leading axis of its arguments across devices itself.
-  return jax.tree_util.tree_map(lambda *xs: jnp.stack(xs), *shards)
+  return jax.tree_util.tree_map(
+      lambda *xs: _shard_leading_axis(jnp.stack(xs), devices), *shards)
 
 
 def _device_put_replicated(x: PyTree, devices: Sequence[Any]):
   """jax.device_put_replicated, or its stacked equivalent where jax removed it."""
   if hasattr(jax, 'device_put_replicated'):
     return jax.device_put_replicated(x, devices)
-  return jax.tree_util.tree_map(lambda l: jnp.stack([l] * len(devices)), x)
+  return jax.tree_util.tree_map(
+      lambda l: _shard_leading_axis(jnp.stack([l] * len(devices)), devices), x)
 
 
 class ForEachClientPmapBackend(ForEachClientBackend):
